@@ -18,7 +18,8 @@ pub enum Order {
 #[derive(Clone, Copy, Debug)]
 pub struct Script {
     pub seed: u64,
-    /// 0 = always left-first, 1 = always right-first, 2 = always concurrent, 3 = mixed by hash of the path
+    /// 0 = always left-first, 1 = always right-first, 2 = always concurrent, 3 = mixed by hash of the path,
+    /// 4 = (C seam only) rayon's work-stealing scheduler in a pool of 2 + seed % 7 threads
     pub mode: u8,
 }
 
@@ -70,12 +71,32 @@ pub fn take_stats() -> Stats {
 struct SendPtr<T>(T);
 unsafe impl<T> Send for SendPtr<T> {}
 
+/// When set, every join is handed to rayon's work-stealing scheduler (`rayon_core::join`) of the pool the caller is
+/// running in: halves are stolen by other workers, and a worker waiting for a stolen half executes OTHER pending
+/// halves on its own stack in the meantime (re-entrant schedules, as with oneTBB).
+pub static WORK_STEALING: std::sync::atomic::AtomicBool = std::sync::atomic::AtomicBool::new(false);
+
 /// Run both halves in the order the installed script dictates for the current path.
 pub fn join<A: FnOnce(), B: FnOnce()>(use_tbb: bool, left: A, right: B) {
     if !use_tbb {
         // blake3_tbb.cpp: without use_tbb the two halves run serially, left first
         left();
         right();
+        return;
+    }
+    #[cfg(feature = "full")]
+    if WORK_STEALING.load(std::sync::atomic::Ordering::Relaxed) {
+        let (l, r) = (SendPtr(left), SendPtr(right));
+        rayon_core::join(
+            move || {
+                let l = l;
+                (l.0)()
+            },
+            move || {
+                let r = r;
+                (r.0)()
+            },
+        );
         return;
     }
     let cur = CUR.with(|c| *c.borrow());
